@@ -46,7 +46,11 @@ fn method_of<F: Float>(m: &Value) -> KernelMethod<F> {
     match gets(m, "name") {
         "linear" => KernelMethod::Linear,
         "gauss" => KernelMethod::Gaussian(F::cast(geti(m, "en") as f64 / geti(m, "ed") as f64)),
-        "poly" => KernelMethod::Polynomial(F::cast(geti(m, "c") as f64), F::cast(geti(m, "d") as f64)),
+        // degree d/dd (dd = 1 when absent)
+        "poly" => KernelMethod::Polynomial(
+            F::cast(geti(m, "c") as f64),
+            F::cast(geti(m, "d") as f64 / m.get("dd").and_then(|x| x.as_i64()).unwrap_or(1) as f64),
+        ),
         other => panic!("unknown kernel method {}", other),
     }
 }
